@@ -10,6 +10,8 @@ func init() {
 			"a key whose last occurrence in a constructor list has an INVALID value while an earlier one is valid may be dropped or keep the last valid value",
 			"OTEL_RESOURCE_ATTRIBUTES keys are Baggage tokens and are not percent-encoded; only values are",
 			"the value kept for a pair with an undecodable percent escape, and the schema URL after a detector schema conflict followed by further URLs, are not asserted beyond the statement",
+			"schema URLs are opaque strings: two URLs are 'common' iff they are the same string (no normalisation of trailing '/', white space, letter case, escapes); a resource built with URL S by NewWithAttributes, New(WithSchemaURL(S)) or StringDetector(S, ...) has schema URL S",
+			"WithFromEnv contributes the environment detector at the position of the option: WithAttributes options after it win on shared keys (service.name included), options before it lose",
 			"hostile caller: the caller's expectation for a list sharing a backing array with another list is the list as built before the first call; whether the library writes into a caller's detector array is observed only through the result of the caller's next call (class label, not asserted); kv lists sharing an array are used shorter-first, once each, because constructors may reorder the slice they are given (last-value-wins preserved)",
 		))
 }
